@@ -1,3 +1,6 @@
 Require Extraction. Require Import ExtrOcamlBasic.
-From GV Require Import DelayedDestructorModel.
-Extraction "delayeddestructor_model.ml" DelayedDestructorModel.run_case.
+From Coq Require Import List ZArith.
+From GV Require Import Sched Enum DelayedDestructorModel.
+Definition enum_case (cfg : list Z) (progs : list (list (list Z))) (depth budget : Z) :=
+  enum_case_gen glob loc tstep (init (decode_cfg cfg) (map decode_prog progs)) depth budget.
+Extraction "delayeddestructor_model.ml" DelayedDestructorModel.run_case enum_case.
